@@ -205,7 +205,7 @@ def known_findings():
 
 # ------------------------------------------------------------------- replays
 def write_replay(pid, payload):
-    d = os.path.join(VERIF, "replays")
+    d = os.environ.get("VERIF_REPLAY_DIR") or os.path.join(VERIF, "replays")
     os.makedirs(d, exist_ok=True)
     h = hashlib.sha1(json.dumps(payload, sort_keys=True, default=str).encode()).hexdigest()[:10]
     p = os.path.join(d, "%s-%s.json" % (pid, h))
